@@ -429,6 +429,8 @@ class DescriptorTransaction(_TransactionBase):
                 if tr_item.new is None:
                     msg = f'State deleted? That should not be possible! handle = {descriptor_container.Handle}'
                     raise ValueError(msg)
+                # refer to the descriptor of the mdib (write_entity links the state to its own copy of the descriptor)
+                tr_item.new.descriptor_container = descriptor_container
                 tr_item.new.update_descriptor_version()
             else:
                 old_state = self._mdib.states.descriptor_handle.get_one(
